@@ -1614,3 +1614,14 @@ package adaptation
 //@   ensures [files] result.1 == nil && result.0.cmd != nil ==> len(result.0.cmd.ExtraFiles) == 1
 //@   ensures [exec]  result.1 == nil && result.0.cmd != nil ==> ncalls("os/exec.Command") == old(ncalls("os/exec.Command")) + 1 && callarg("os/exec.Command", old(ncalls("os/exec.Command")), 0) == pathjoin2(dir, idx + "-" + base)
 //@                   && result.0.cmd == callret("os/exec.Command", old(ncalls("os/exec.Command")), 0)
+
+// A plugin launched by NRI is killed and reaped when it is stopped; others are left alone.
+//@ func plugin.stop
+//@   props C18
+//@   requires p != nil && allocated(p.impl)
+//@   modifies calls("(*os.Process).Kill"), calls("(*os.Process).Wait"), calls("(*os.Process).Release")
+//@   ensures [ok]    result == nil
+//@   ensures [other] p.cmd == nil || p.cmd.Process == nil || p.impl.wasmImpl != nil ==> ncalls("(*os.Process).Kill") == old(ncalls("(*os.Process).Kill"))
+//@   ensures [kill]  p.cmd != nil && p.cmd.Process != nil && p.impl.wasmImpl == nil ==> ncalls("(*os.Process).Kill") == old(ncalls("(*os.Process).Kill")) + 1 && callarg("(*os.Process).Kill", old(ncalls("(*os.Process).Kill")), 0) == p.cmd.Process
+//@                   && ncalls("(*os.Process).Wait") == old(ncalls("(*os.Process).Wait")) + 1 && callarg("(*os.Process).Wait", old(ncalls("(*os.Process).Wait")), 0) == p.cmd.Process
+//@                   && callseq("(*os.Process).Kill", old(ncalls("(*os.Process).Kill"))) < callseq("(*os.Process).Wait", old(ncalls("(*os.Process).Wait")))
